@@ -233,6 +233,126 @@ def handler_exceptions(fl: int, mi: int, a0: int, a1: int, me: int, de: int, leg
     return verdict(untraced(_sel, fl, mi, a0, a1, 0, 2, me, de, legacy))
 
 
+RACERS = ('close-packet', 'disconnect-sid', 'ws-drop', 'protocol-error', 'send-after-deadline', 'close-packet-ws-then-drop')
+
+
+def _race(fl, mi, c0, c1, slow, s0, s1, s2):
+    """Two end causes are injected at the same instant, WITHOUT letting the server settle in between; the first scheduling
+    decisions among the ready tasks are chosen by the selectors s0..s2; optionally the disconnect handler is slow (it blocks /
+    awaits for one virtual second, so the second cause is processed while the handler of the first is still running).
+    Exactly one disconnect event, its reason names one of the two causes, nothing after it, bystander untouched."""
+    mode = MODES[mi]
+    a, b = RACERS[c0], RACERS[c1]
+    for x in (a, b):
+        if x in ('ws-drop', 'close-packet-ws-then-drop') and mode == 'polling':
+            return ''
+        if x == 'protocol-error' and mode != 'polling':
+            return ''
+    sut = mk(fl, async_handlers=False, monitor_clients=False)
+    st = dict(flavour=sut.flavour, mode=mode, race=repr((a, b)), slow_handler=bool(slow), order=repr((s0, s1, s2)))
+    try:
+        if slow:
+            log = sut.events
+            if fl == 0:
+                def slow_disconnect(sid, reason):
+                    log.append(('disconnect', sid, reason))
+                    sut.srv.sleep(1)
+            else:
+                async def slow_disconnect(sid, reason):
+                    log.append(('disconnect', sid, reason))
+                    await sut.shim.sleep(1)
+            sut.srv.on('disconnect', slow_disconnect)
+        sut.open('polling')
+        sut.settle()
+        other = sut.sids()[0]
+        peer = None
+        if mode == 'websocket':
+            r = sut.open('websocket')
+            sut.settle()
+            peer = r.peer
+        else:
+            sut.open('polling')
+            sut.settle()
+        sid = sut.sids()[1]
+        if mode == 'upgraded':
+            u = sut.ws_upgrade(sid)
+            sut.settle()
+            u.peer.send('2probe')
+            sut.settle()
+            u.peer.send('5')
+            sut.settle()
+            peer = u.peer
+        if 'send-after-deadline' in (a, b):
+            sut.run(until=sut.k.now + sut.srv.ping_interval + sut.srv.ping_timeout + 1)
+            if [1 for k_, s_, a_ in sut.events if k_ == 'disconnect' and s_ == sid]:
+                return ''           # the deadline alone already ended it (WebSocket read timeout): no race left to look at
+        api_calls = []
+
+        def fire(x):
+            if x == 'close-packet':
+                if peer is not None:
+                    peer.send('1')
+                else:
+                    sut.post(sid, '1')
+            elif x == 'disconnect-sid':
+                api_calls.append(sut.app_disconnect(sid))
+            elif x == 'ws-drop':
+                peer.close()
+            elif x == 'protocol-error':
+                sut.post(sid, '7')
+            elif x == 'send-after-deadline':
+                api_calls.append(sut.app_send(sid, 'late'))
+            elif x == 'close-packet-ws-then-drop':
+                peer.send('1')
+                peer.close()
+        sut.k.choices = [s0, s1, s2]
+        fire(a)
+        fire(b)
+        sut.settle()
+        sut.run(until=sut.k.now + 3)
+        # afterwards
+        sut.post(sid, '4afterwards')
+        sut.get(sid)
+        if peer is not None and not peer.client_closed:
+            peer.send('4afterwards-ws')
+        sut.settle()
+        sut.post(other, '4other-still-works')
+        sut.settle()
+        mine = [(k_, a_) for k_, s_, a_ in sut.events if s_ == sid]
+        if not mine or mine[0][0] != 'connect' or [k_ for k_, a_ in mine].count('connect') != 1:
+            return fail(PROP, 'CONNECT-FIRST-ONCE', 'events %r' % (mine,), **st)
+        discs = [a_ for k_, a_ in mine if k_ == 'disconnect']
+        if len(discs) != 1:
+            return fail(PROP, 'DISCONNECT-ONCE', '%d disconnect events when %s and %s race: %r' % (len(discs), a, b, mine), **st)
+        ok = ()
+        for x in (a, b):
+            ok = ok + {'close-packet': ('client disconnect',), 'disconnect-sid': ('server disconnect',),
+                       'ws-drop': ('transport close', 'transport error'), 'protocol-error': ('server disconnect', 'transport error'),
+                       'send-after-deadline': ('ping timeout', 'transport close', 'transport error'),
+                       'close-packet-ws-then-drop': ('client disconnect', 'transport close', 'transport error')}[x]
+        if discs[0] not in ok:
+            return fail(PROP, 'DISCONNECT-REASON', 'racing causes %s / %s, reason %r' % (a, b, discs[0]), **st)
+        i = [k_ for k_, a_ in mine].index('disconnect')
+        if mine[i + 1:]:
+            return fail(PROP, 'EVENT-AFTER-DISCONNECT', 'events %r after the disconnect event (race %s / %s)' % (mine[i + 1:], a, b), **st)
+        theirs = [(k_, a_) for k_, s_, a_ in sut.events if s_ == other]
+        if theirs != [('connect', None), ('message', 'other-still-works')]:
+            return fail(PROP, 'OTHER-SESSION', 'bystander events %r' % (theirs,), **st)
+        return ''
+    finally:
+        sut.close()
+
+
+@cond(quick=dict(timeout=170, parts=dict(FL=[0, 1])), thorough=dict(timeout=900, parts=dict(FL=[0, 1], SLOW=[0, 1])))
+def racing_ends(fl: int, mi: int, c0: int, c1: int, slow: bool, s0: int, s1: int, s2: int) -> str:
+    """
+    pre: fl == P.FL and 0 <= mi <= 2 and 0 <= c0 < len(RACERS) and 0 <= c1 < len(RACERS) and c0 != c1
+    pre: 0 <= s0 <= 2 and 0 <= s1 <= 1 and 0 <= s2 <= 1 and (not hasattr(P, 'SLOW') or slow == bool(P.SLOW))
+    post: _ == ''
+    """
+    return verdict(untraced(_race, fl, mi, c0, c1, slow, s0, s1, s2))
+
+
 CONNECTS = (False, 0, 'no', RuntimeError('x'), TypeError('t'))
 
 
